@@ -63,8 +63,8 @@ def nested_pair(run, rec):
 
     fx = fixtures()
     key0 = f"nested:{rec['null']}->{rec['alt']}"
-    L = len(rec["pi"][0][0])
-    aln = fx["codon"] if L == 3 else fx["dna"]
+    is_codon = rec["alt"] in ("MG94GTR", "MG94HKY", "CNFGTR", "CNFHKY", "GY94", "Y98")
+    aln = fx["codon"] if is_codon else fx["dna"]
     pi = {word(w): float(frac(v)) for w, v in rec["pi"]}
     null = get_model(rec["null"]).make_likelihood_function(fx["tree"])
     null.set_alignment(aln)
